@@ -68,6 +68,8 @@ var topicsOpq = []topic{
 		fns: methods("gsap", "sort", "Parse"), opaque: []fnKey{{"", "lcp"}}, part2: true},
 	{name: "GSAPInit", doc: "gsap.go: gsap.init, gsap.Reset, gsap.Shrink",
 		fns: methods("gsap", "init", "Reset", "Shrink"), part2: true, refl: true},
+	{name: "BUPShrink", doc: "bucket_hash.go: bucketDictionary.Shrink (Shrink of the bucketParser); bucketHash.shiftOffsets is an opaque state-passing parameter (it writes through the sub-slice returned by bucket() while bh.buckets is live)",
+		fns: methods("bucketDictionary", "Shrink"), part2: true},
 }
 
 // spCallee: one opaque state-passing callee of a topic.
@@ -86,13 +88,17 @@ var spTopics = map[string][]spCallee{
 		// (*bitset).insert(i ...int) *bitset: variadic, calls support (two live references to one array)
 		{recv: "bitset", name: "insert"},
 	},
+	"BUPShrink": {
+		// (*bucketHash).shiftOffsets(delta uint32): `b := bh.bucket(h)` and writes through b (copy(b, tmp[:i]), p := b[i:]; p[k] = …)
+		// while bh.buckets is live — two live references to one array with writes through the second
+		{recv: "bucketHash", name: "shiftOffsets"},
+	},
 }
 
 func init() {
 	for _, t := range topicsOpq {
 		declOrderTopics[t.name] = true
 	}
-	ptrNonNilTopics["GSAPParse"] = true
 }
 
 // repoDir: the repository being translated (set by genCodeTopics); the sub-packages of cross-package
